@@ -419,6 +419,9 @@ class Interp:
         if isinstance(cur, list) and op is operator.add:
             cur.extend(val)
             return cur
+        if type(cur) in (dict, set) and op is operator.or_ and type(new) is type(cur):
+            cur.update(val)  # `d |= other` / `s |= other` mutate the left operand in place (aliases see it)
+            return cur
         if hasattr(cur, "_pyvc_inplace") and not isinstance(cur, (Sym, SymArr, Obj)):
             # value classes of library models that are mutable arrays (C13: structural complex arrays): `x op= v` stores INTO x
             return cur._pyvc_inplace(op, new)
